@@ -235,6 +235,10 @@ func (a *ctlFn) Evaluate(_ plugintypes.RuleMetadata, txS plugintypes.Transaction
 	case ctlRequestBodyLimit:
 		if tx.LastPhase() <= types.PhaseRequestHeaders {
 			limit, err := strconv.ParseInt(a.value, 10, 64)
+			if err == nil && limit <= 0 {
+				// a body limit has to be positive (as SecRequestBodyLimit / SecResponseBodyLimit require)
+				err = errors.New("the limit must be greater than zero")
+			}
 			if err != nil {
 				tx.DebugLogger().Error().
 					Str("ctl", "RequestBodyLimit").
@@ -329,6 +333,10 @@ func (a *ctlFn) Evaluate(_ plugintypes.RuleMetadata, txS plugintypes.Transaction
 	case ctlResponseBodyLimit:
 		if tx.LastPhase() <= types.PhaseResponseHeaders {
 			limit, err := strconv.ParseInt(a.value, 10, 64)
+			if err == nil && limit <= 0 {
+				// a body limit has to be positive (as SecRequestBodyLimit / SecResponseBodyLimit require)
+				err = errors.New("the limit must be greater than zero")
+			}
 			if err != nil {
 				tx.DebugLogger().Error().
 					Str("ctl", "ResponseBodyLimit").
